@@ -677,7 +677,7 @@ var smokeOwnFuncs = map[string][]string{
 	"C03": {"-"}, // C03 constrains what acceptance implies; a call that returns nothing accepts nothing
 	"C04": {"bip39.MnemonicToSeed"},
 	"C05": {"-"}, // a call that returns no mnemonic is not C05's subject
-	"C08": {"bip39.NewMnemonicByEntropy", "bip39.CheckMnemonic", "bip39.IsMnemonicValid"},
+	"C08": {"-"}, // C08 is about which words the API shows and knows; a crash shows none
 	"C09": {"bip39.NewMnemonicByEntropy", "bip39.NewMnemonic"},
 	"C10": {"-"}, // C10 and C11 compare verdicts and seeds; a call that returns nothing gives neither
 	"C11": {"-"},
